@@ -1,7 +1,539 @@
-/- C06: model not built yet (stub so that the per-property driver links). -/
+/-
+C06 — write control.  Transcription of `AnySource.WriteControl` / `writeControlStart` /
+`makeDirectory` (data_source.go), `WritingState.Start/Stop` (writing_state.go) and of the
+`DataPublisher` methods `SetPause`, `SetLJH22`, `SetLJH3`, `SetOFF`, `Remove*`, `PublishData`
+(publish_data.go).
+
+* Requests are byte strings (ASCII); `classify` transcribes the prefix match on the upper-cased
+  request and the `"UNPAUSE label"` format rule (which looks at the ORIGINAL string).
+* A run directory is `(pid, num)`: `pid` names the base path, `num` the 4-digit counter.
+  `dirs` is the set of existing run directories; `makeDirectory` picks the first unused number.
+* The data files are an event log `files`: one entry `(key, n)` per batch of `n` records appended
+  to file `key = (run, channel, type)`.  `stored files key` = number of records in that file.
+  Files are created lazily by the code; a file without records is not distinguished from no file.
+* `Chan.elig` is a ghost field: whether the channel had projectors at the last successful START
+  (what makes it eligible for OFF output).  No transition reads it.
+* I/O failures inside START/STOP are outside the property's quantifier (not modelled).
+-/
 import DastardV.Proto
 namespace DastardV.C06
 
-def runLine (_ts : List String) : Verdict := .bad "C06: model not built yet"
+inductive FT where
+  | ljh22 | ljh3 | off
+deriving Repr, DecidableEq
+
+structure Run where
+  pid : Nat
+  num : Nat
+deriving Repr, DecidableEq
+
+structure FKey where
+  run : Run
+  ch : Nat
+  ft : FT
+deriving Repr, DecidableEq
+
+abbrev Files := List (FKey × Nat)
+
+/-- number of records in file `k` -/
+def stored : Files → FKey → Nat
+  | [], _ => 0
+  | (k', n) :: r, k => (if k' = k then n else 0) + stored r k
+
+/-- per-channel `DataPublisher` state -/
+structure Chan where
+  paused : Bool          -- WritingPaused
+  w22 : Option Run       -- LJH22 writer (the run directory its file belongs to)
+  w3 : Option Run        -- LJH3 writer
+  woff : Option Run      -- OFF writer
+  proj : Bool            -- HasProjectors()
+  elig : Bool            -- ghost: had projectors at the last successful START
+  nw : Nat               -- numberWritten
+deriving Repr, DecidableEq
+
+def Chan.new (proj : Bool) : Chan :=
+  { paused := false, w22 := none, w3 := none, woff := none, proj, elig := false, nw := 0 }
+
+def Chan.writer (c : Chan) : FT → Option Run
+  | .ljh22 => c.w22
+  | .ljh3 => c.w3
+  | .off => c.woff
+
+def Chan.hasWriter (c : Chan) : Bool := c.w22.isSome || c.w3.isSome || c.woff.isSome
+
+/-- the source-level `WritingState` (every field here is reported to clients) -/
+structure WS where
+  active : Bool
+  paused : Bool
+  base : Option Nat      -- BasePath (`none` = "")
+  pat : Option Run       -- FilenamePattern (`none` = "")
+  l22 : Bool
+  off : Bool
+  l3 : Bool
+deriving Repr, DecidableEq
+
+def WS.enabled (w : WS) : FT → Bool
+  | .ljh22 => w.l22
+  | .ljh3 => w.l3
+  | .off => w.off
+
+structure St where
+  ws : WS
+  chans : List Chan
+  dirs : List Run
+  files : Files
+deriving Repr, DecidableEq
+
+def St.init (proj : List Bool) (pre : List Run) : St :=
+  { ws := { active := false, paused := false, base := none, pat := none, l22 := false, off := false, l3 := false },
+    chans := proj.map Chan.new, dirs := pre, files := [] }
+
+/-! ### Request strings -/
+
+def upper (b : Nat) : Nat := if 97 ≤ b ∧ b ≤ 122 then b - 32 else b
+
+def sPAUSE : List Nat := [80, 65, 85, 83, 69]
+def sUNPAUSE : List Nat := [85, 78, 80, 65, 85, 83, 69]
+def sSTOP : List Nat := [83, 84, 79, 80]
+def sSTART : List Nat := [83, 84, 65, 82, 84]
+
+inductive Kind where
+  | pause
+  | unpause (label : Option (List Nat))
+  | unpauseBad
+  | stop
+  | start
+  | invalid
+deriving Repr, DecidableEq
+
+/-- the `switch` of `WriteControl` -/
+def classify (req : List Nat) : Kind :=
+  let u := req.map upper
+  if sPAUSE.isPrefixOf u then .pause
+  else if sUNPAUSE.isPrefixOf u then
+    if req.length > 7 then
+      if req[7]? ≠ some 32 ∨ req.length = 8 then .unpauseBad else .unpause (some (req.drop 8))
+    else .unpause none
+  else if sSTOP.isPrefixOf u then .stop
+  else if sSTART.isPrefixOf u then .start
+  else .invalid
+
+/-! ### makeDirectory -/
+
+/-- first `i` in `[i, i+fuel)` such that run directory `(pid, i)` does not exist -/
+def firstUnusedFrom (dirs : List Run) (pid : Nat) : Nat → Nat → Option Nat
+  | _, 0 => none
+  | i, fuel + 1 => if dirs.contains ⟨pid, i⟩ then firstUnusedFrom dirs pid (i + 1) fuel else some i
+
+/-- `makeDirectory`: `none` = "out of 4-digit ID numbers" -/
+def makeDirectory (dirs : List Run) (pid : Nat) : Option Nat := firstUnusedFrom dirs pid 0 10000
+
+/-! ### Channel operations -/
+
+def Chan.setPause (c : Chan) (p : Bool) : Chan := { c with paused := p }
+
+/-- `RemoveLJH22; RemoveOFF; RemoveLJH3` -/
+def Chan.removeAll (c : Chan) : Chan := { c with w22 := none, w3 := none, woff := none, nw := 0 }
+
+/-- `SetLJH22` -/
+def Chan.setLJH22 (c : Chan) (r : Run) : Chan := { c with w22 := some r, paused := false, nw := 0 }
+/-- `SetLJH3` -/
+def Chan.setLJH3 (c : Chan) (r : Run) : Chan := { c with w3 := some r, paused := false, nw := 0 }
+/-- `SetOFF` (resets the pause flag like the other two since fix 29d6aef) -/
+def Chan.setOFF (c : Chan) (r : Run) : Chan := { c with woff := some r, paused := false, nw := 0 }
+
+/-- the per-channel body of the loop in `writeControlStart` -/
+def Chan.start (c : Chan) (r : Run) (l22 off l3 : Bool) : Chan :=
+  let c1 := if l22 then c.setLJH22 r else c
+  let c2 := if off && c1.proj then c1.setOFF r else c1
+  let c3 := if l3 then c2.setLJH3 r else c2
+  { c3 with elig := c3.proj }
+
+def addFor (fs : Files) (c : Chan) (ch n : Nat) (t : FT) : Files :=
+  match c.writer t with
+  | some r => (⟨r, ch, t⟩, n) :: fs
+  | none => fs
+
+/-- `PublishData` of `n` records on channel number `ch` -/
+def pubChan (fs : Files) (ch : Nat) (c : Chan) (n : Nat) : Chan × Files :=
+  if n = 0 then (c, fs)
+  else if c.paused then (c, fs)
+  else if !c.hasWriter then (c, fs)
+  else ({ c with nw := c.nw + n },
+        addFor (addFor (addFor fs c ch n .ljh22) c ch n .ljh3) c ch n .off)
+
+/-- records published on every channel (`ns`: one count per channel, missing = 0) -/
+def pubAll : Nat → List Chan → List Nat → Files → List Chan × Files
+  | _, [], _, fs => ([], fs)
+  | i, c :: cs, ns, fs =>
+    let r1 := pubChan fs i c (ns.headD 0)
+    let r2 := pubAll (i + 1) cs ns.tail r1.2
+    (r1.1 :: r2.1, r2.2)
+
+def setProj : List Chan → Nat → List Chan
+  | [], _ => []
+  | c :: cs, 0 => { c with proj := true } :: cs
+  | c :: cs, i + 1 => c :: setProj cs i
+
+/-! ### Operations -/
+
+inductive Op where
+  | req (r : List Nat) (path : Option Nat) (l22 off l3 : Bool)
+  | pub (counts : List Nat)
+  | proj (ch : Nat)
+deriving Repr, DecidableEq
+
+/-- `WritingState.Stop` -/
+def WS.stop (w : WS) : WS := { w with active := false, paused := false, pat := none }
+
+/-- `path := ws.BasePath; if len(config.Path) > 0 { path = config.Path }` -/
+def pathOr (path base : Option Nat) : Option Nat :=
+  match path with
+  | some p => some p
+  | none => base
+
+/-- the checks of `writeControlStart` and `makeDirectory`: the run directory an accepted START
+creates, `none` when the request is refused -/
+def startTarget (s : St) (path : Option Nat) (l22 off l3 : Bool) : Option Run :=
+  if !(l22 || off || l3) then none                       -- all three file types false
+  else if s.chans.any (·.hasWriter) then none            -- writing already in progress
+  else if off && !s.chans.any (·.proj) then none         -- OFF requires projectors on some channel
+  else
+    match pathOr path s.ws.base with
+    | none => none                                       -- BasePath is the empty string
+    | some p =>
+      match makeDirectory s.dirs p with
+      | none => none                                     -- out of 4-digit numbers
+      | some i => some ⟨p, i⟩
+
+/-- `writeControlStart`; the Bool is "returned an error" -/
+def startReq (s : St) (path : Option Nat) (l22 off l3 : Bool) : St × Bool :=
+  match startTarget s path l22 off l3 with
+  | none => (s, true)
+  | some r =>
+    ({ s with chans := s.chans.map (·.start r l22 off l3),
+              dirs := r :: s.dirs,
+              ws := { active := true, paused := false, base := some r.pid, pat := some r, l22, off, l3 } }, false)
+
+/-- one step; the Bool is "the request returned an error" -/
+def step (s : St) : Op → St × Bool
+  | .req r path l22 off l3 =>
+    match classify r with
+    | .pause =>
+      ({ s with chans := s.chans.map (·.setPause true), ws := { s.ws with paused := true } }, false)
+    | .unpause lbl =>
+      if lbl.isSome && !s.ws.active then (s, true)      -- SetExperimentStateLabel refuses
+      else ({ s with chans := s.chans.map (·.setPause false), ws := { s.ws with paused := false } }, false)
+    | .unpauseBad => (s, true)
+    | .stop => ({ s with chans := s.chans.map (·.removeAll), ws := s.ws.stop }, false)
+    | .start => startReq s path l22 off l3
+    | .invalid => (s, true)
+  | .pub counts =>
+    let r := pubAll 0 s.chans counts s.files
+    ({ s with chans := r.1, files := r.2 }, false)
+  | .proj ch => ({ s with chans := setProj s.chans ch }, false)
+
+/-! ### Observations -/
+
+def FT.all : List FT := [.ljh22, .ljh3, .off]
+
+/-- number of data files a channel holds open: writers whose file has been created -/
+def Chan.openFiles (fs : Files) (ch : Nat) (c : Chan) : Nat :=
+  (FT.all.filter fun t => match c.writer t with
+    | some r => stored fs ⟨r, ch, t⟩ > 0
+    | none => false).length
+
+def openFilesFrom (fs : Files) : Nat → List Chan → Nat
+  | _, [] => 0
+  | i, c :: cs => c.openFiles fs i + openFilesFrom fs (i + 1) cs
+
+structure Obs where
+  ws : WS
+  nw : List Nat
+  files : Files
+  fds : Nat             -- files held open below the output directory
+deriving Repr
+
+def obs (s : St) : Obs :=
+  { ws := s.ws, nw := s.chans.map (·.nw), files := s.files,
+    fds := (if s.ws.active then 1 else 0) + openFilesFrom s.files 0 s.chans }
+
+/-- the model's run: after every op, (error flag, observation) -/
+def runModel : St → List Op → List (Bool × Obs)
+  | _, [] => []
+  | s, o :: os => ((step s o).2, obs (step s o).1) :: runModel (step s o).1 os
+
+def runOps : St → List Op → St
+  | s, [] => s
+  | s, o :: os => runOps (step s o).1 os
+
+/-! ### The oracle: the property statement, evaluated on observations only -/
+
+/-- records the file `k` must gain when channel number `ch` (OFF-eligible iff `e`) publishes `n` records
+while the reported state is `w` -/
+def exp1 (w : WS) (e : Bool) (ch n : Nat) (k : FKey) : Nat :=
+  if w.active && !w.paused && decide (w.pat = some k.run) && w.enabled k.ft
+      && (decide (k.ft ≠ .off) || e) && decide (k.ch = ch) then n else 0
+
+/-- summed over the channels (`es`: OFF eligibility per channel, `ns`: records published per channel) -/
+def expAll (w : WS) : Nat → List Bool → List Nat → FKey → Nat
+  | _, [], _, _ => 0
+  | i, e :: es, ns, k => exp1 w e i (ns.headD 0) k + expAll w (i + 1) es ns.tail k
+
+structure OSt where
+  prev : Obs
+  elig : List Bool     -- per channel: had projectors at the last accepted START
+  proj : List Bool     -- per channel: has projectors now
+  dirs : List Run      -- run directories known to exist
+deriving Repr
+
+inductive Bad where
+  | rejectedChanged            -- a rejected request changed the reported state or the files
+  | requestTouchedFiles        -- an accepted request changed the number of stored records
+  | startNotFresh              -- accepted START: pattern missing, not under the requested path, or an existing directory
+  | stopLeftOpen               -- accepted STOP: files still open
+  | notStored (k : FKey)       -- fewer records than the reported state demands
+  | storedUnexpectedly (k : FKey)  -- more records than the reported state allows
+deriving Repr, DecidableEq
+
+def keysOf (fs : Files) : List FKey := fs.map (·.1)
+
+def sameFiles (a b : Files) : Bool :=
+  (keysOf a ++ keysOf b).all fun k => stored a k == stored b k
+
+def setTrue : List Bool → Nat → List Bool
+  | [], _ => []
+  | _ :: bs, 0 => true :: bs
+  | b :: bs, i + 1 => b :: setTrue bs i
+
+/-- keys of the current run that may be written: every channel, every type -/
+def runKeys (w : WS) (nch : Nat) : List FKey :=
+  match w.pat with
+  | none => []
+  | some r => (List.range nch).flatMap fun ch => FT.all.map fun t => ⟨r, ch, t⟩
+
+def firstBad (before after : Files) (want : FKey → Nat) : List FKey → Option Bad
+  | [] => none
+  | k :: ks =>
+    if stored after k < stored before k + want k then some (.notStored k)
+    else if stored after k > stored before k + want k then some (.storedUnexpectedly k)
+    else firstBad before after want ks
+
+def chkStep (o : OSt) (op : Op) (err : Bool) (after : Obs) : Except Bad OSt :=
+  match op with
+  | .req r path _ _ _ =>
+    if err then
+      if after.ws = o.prev.ws ∧ sameFiles o.prev.files after.files then .ok { o with prev := after }
+      else .error .rejectedChanged
+    else if !sameFiles o.prev.files after.files then .error .requestTouchedFiles
+    else match classify r with
+      | .start =>
+        match after.ws.pat with
+        | none => .error .startNotFresh
+        | some run =>
+          if o.dirs.contains run ∨ some run.pid ≠ pathOr path o.prev.ws.base
+          then .error .startNotFresh
+          else .ok { prev := after, elig := o.proj, proj := o.proj, dirs := run :: o.dirs }
+      | .stop => if after.fds = 0 then .ok { o with prev := after } else .error .stopLeftOpen
+      | _ => .ok { o with prev := after }
+  | .pub counts =>
+    let keys := keysOf o.prev.files ++ keysOf after.files ++ runKeys o.prev.ws o.elig.length
+    match firstBad o.prev.files after.files (expAll o.prev.ws 0 o.elig counts) keys with
+    | some b => .error b
+    | none => .ok { o with prev := after }
+  | .proj ch =>
+    if sameFiles o.prev.files after.files then .ok { o with prev := after, proj := setTrue o.proj ch }
+    else .error .requestTouchedFiles
+
+def chkRun : OSt → List Op → List (Bool × Obs) → Except Bad OSt
+  | o, [], _ => .ok o
+  | o, _, [] => .ok o
+  | o, op :: ops, (e, ob) :: rest =>
+    match chkStep o op e ob with
+    | .ok o' => chkRun o' ops rest
+    | .error b => .error b
+
+def OSt.init (proj : List Bool) (pre : List Run) : OSt :=
+  { prev := obs (St.init proj pre), elig := proj.map fun _ => false, proj, dirs := pre }
+
+/-! ### Driver -/
+
+def ftOfNat : Nat → FT
+  | 0 => .ljh22
+  | 1 => .ljh3
+  | _ => .off
+
+def ftName : FT → String
+  | .ljh22 => "ljh"
+  | .ljh3 => "ljh3"
+  | .off => "off"
+
+def keyStr (k : FKey) : String := s!"p{k.run.pid}/run{k.run.num}/chan{k.ch}.{ftName k.ft}"
+
+/-- input op as written by the harness (B carries only the block length: its counts are in the output) -/
+inductive InOp where
+  | q (r : List Nat) (path : Option Nat) (l22 off l3 : Bool)
+  | b
+  | d (ch n : Nat)
+  | p (ch : Nat)
+
+def optOfInt (i : Int) : Option Nat := if i < 0 then none else some i.toNat
+
+open P in
+def parseInOp : P InOp := do
+  let t ← tok
+  match t with
+  | "Q" => do
+    let r ← bytes
+    let pid ← int
+    let a ← bool; let b ← bool; let c ← bool
+    pure (.q r (optOfInt pid) a b c)
+  | "B" => do let _ ← nat; pure .b
+  | "D" => do let ch ← nat; let n ← nat; pure (.d ch n)
+  | "P" => do let ch ← nat; pure (.p ch)
+  | _ => fail s!"bad op {t}"
+
+/-- what the implementation reported after one op -/
+structure ImplRes where
+  err : Bool
+  counts : List Nat
+  ws : WS
+  nw : List Nat
+  fds : Nat
+  delta : List (FKey × Nat)
+
+def runOfInts (p r : Int) : Option Run :=
+  if p = -1 then none else if p < 0 ∨ r < 0 then some ⟨777777, 777777⟩ else some ⟨p.toNat, r.toNat⟩
+
+open P in
+def parseRes (op : InOp) : P ImplRes := do
+  let t ← tok
+  let (err, counts) ← (match op, t with
+    | .q .., "E" => do let e ← bool; pure (e, ([] : List Nat))
+    | .p .., "E" => do let e ← bool; pure (e, [])
+    | .b, "R" => do let cs ← list nat; pure (false, cs)
+    | .d ch n, "-" => pure (false, List.replicate ch 0 ++ [n])
+    | _, _ => fail s!"bad result {t}" : P (Bool × List Nat))
+  kw "S"
+  let a ← bool; let p ← bool; let l22 ← bool; let off ← bool; let l3 ← bool
+  let base ← int; let pp ← int; let pr ← int
+  kw "NW"; let nw ← list nat
+  kw "FD"; let fds ← nat
+  kw "F"
+  let delta ← list (do
+    let pid ← nat; let run ← nat; let ch ← nat; let ty ← nat; let n ← nat
+    pure ((⟨⟨pid, run⟩, ch, ftOfNat ty⟩ : FKey), n))
+  pure { err, counts, nw, fds, delta,
+         ws := { active := a, paused := p, l22, off, l3,
+                 base := if base = -1 then none else if base < 0 then some 777777 else some base.toNat,
+                 pat := runOfInts pp pr } }
+
+def applyDelta (fs : Files) (delta : List (FKey × Nat)) : Files :=
+  delta ++ fs.filter fun p => !(delta.any fun d => d.1 == p.1)
+
+def modelOp : InOp → ImplRes → Op
+  | .q r path a b c, _ => .req r path a b c
+  | .b, res => .pub res.counts
+  | .d .., res => .pub res.counts
+  | .p ch, _ => .proj ch
+
+def badMsg (k : Nat) : Bad → String
+  | .rejectedChanged => s!"C06:rejected-not-noop a rejected request (op {k}) changed the reported state or the stored records"
+  | .requestTouchedFiles => s!"C06:request-changed-files a request (op {k}) changed the number of stored records"
+  | .startNotFresh => s!"C06:start-not-fresh accepted START (op {k}) did not report a new run directory under the requested path"
+  | .stopLeftOpen => s!"C06:stop-left-open accepted STOP (op {k}) left files open"
+  | .notStored key => s!"C06:not-stored op {k}: reported active and not paused, type enabled, channel eligible, yet records published were not stored in {keyStr key}"
+  | .storedUnexpectedly key => s!"C06:stored-unexpectedly op {k}: records stored in {keyStr key} although the reported state does not allow it"
+
+def opTag (op : Op) (err : Bool) : List String :=
+  match op with
+  | .req r _ l22 off l3 =>
+    match classify r, err with
+    | .start, false => ["start-ok"] ++ (if off && !l22 && !l3 then ["start-off-only"] else [])
+    | .start, true => ["start-rejected"]
+    | .stop, _ => ["stop"]
+    | .pause, _ => ["pause"]
+    | .unpause none, _ => ["unpause"]
+    | .unpause (some _), false => ["unpause-label"]
+    | .unpause (some _), true => ["unpause-label-rejected"]
+    | .unpauseBad, _ => ["unpause-malformed"]
+    | .invalid, _ => ["invalid-request"]
+  | .pub _ => []
+  | .proj _ => ["load-projectors"]
+
+def parseAll : List InOp → P (List (InOp × ImplRes))
+  | [] => pure []
+  | o :: os => do
+    let r ← parseRes o
+    let rest ← parseAll os
+    pure ((o, r) :: rest)
+
+/-- the oracle over a whole history of implementation observations: first violated clause, if any -/
+def oracleAll (o : OSt) (implFiles : Files) : List (InOp × ImplRes) → Nat → Option String
+  | [], _ => none
+  | (iop, res) :: rest, k =>
+    let op := modelOp iop res
+    let files' := applyDelta implFiles res.delta
+    let after : Obs := { ws := res.ws, nw := res.nw, files := files', fds := res.fds }
+    match chkStep o op res.err after with
+    | .error b => some (badMsg k b)
+    | .ok o' => oracleAll o' files' rest (k + 1)
+
+def runLine (ts : List String) : Verdict :=
+  let p : P (List Bool × List Run × List (InOp × ImplRes)) := do
+    P.kw "nch"; let nch ← P.nat
+    P.kw "npre"; let _ ← P.nat
+    P.kw "nsamp"; let _ ← P.nat
+    P.kw "proj"; let proj ← P.rep P.bool nch
+    P.kw "pre"; let pre ← P.list (do let a ← P.nat; let b ← P.nat; pure (⟨a, b⟩ : Run))
+    P.kw "ops"; let ops ← P.list parseInOp
+    P.kw "OUT"
+    let t ← P.peek
+    if t == some "PANIC" || t == some "HANG" then
+      let a ← P.tok
+      let b ← (do let e ← P.atEnd; if e then pure "" else P.tok)
+      P.fail s!"CRASH {a} {b}"
+    let n ← P.nat
+    if n != ops.length then P.fail "op count mismatch"
+    let rs ← parseAll ops
+    pure (proj, pre, rs)
+  match P.run p ts with
+  | .error e =>
+    if e.startsWith "CRASH" then .viol s!"C06:crash the implementation crashed or hung: {e}" else .bad e
+  | .ok (proj, pre, rs) =>
+    -- 1. the oracle over the whole history (implementation's observations only)
+    match oracleAll (OSt.init proj pre) [] rs 0 with
+    | some m => .viol m
+    | none =>
+    -- 2. the model must reproduce every observation
+    let rec go (s : St) (implFiles : Files) (rest : List (InOp × ImplRes)) (k : Nat)
+        (tags : List String) : Verdict :=
+      match rest with
+      | [] =>
+        let t := tags.eraseDups
+        .ok (t ++ (if t.contains "stored" && t.contains "withheld" then ["both"] else []))
+      | (iop, res) :: rest' =>
+        let op := modelOp iop res
+        let files' := applyDelta implFiles res.delta
+        let sm := step s op
+        let s' := sm.1
+        let mo := obs s'
+        if sm.2 != res.err then .diff s!"error flag differs at op {k}: model {sm.2} impl {res.err}"
+        else if mo.ws != res.ws then .diff s!"reported writing state differs at op {k}"
+        else if mo.nw != res.nw then .diff s!"written counters differ at op {k}: model {mo.nw} impl {res.nw}"
+        else if !((keysOf mo.files ++ keysOf files').all fun key => stored mo.files key == stored files' key) then
+          .diff s!"stored record counts differ at op {k}"
+        else if !s'.ws.active && res.fds != 0 then .diff s!"files open while not active at op {k}"
+        else
+          let t := match op with
+            | .pub counts =>
+              if counts.all (· == 0) then ["publish-empty"]
+              else if (keysOf files').any (fun key => stored files' key != stored implFiles key) then
+                ["stored"] ++ (if res.ws.off && !res.ws.l22 && !res.ws.l3 then ["stored-off-only"] else [])
+              else ["withheld"] ++ (if res.ws.active && res.ws.paused then ["withheld-paused"] else [])
+                    ++ (if !res.ws.active then ["withheld-inactive"] else [])
+            | _ => opTag op res.err
+          go s' files' rest' (k + 1) (tags ++ t)
+    go (St.init proj pre) [] rs 0 []
 
 end DastardV.C06
